@@ -15,7 +15,7 @@ INFO = {
                    "never Ok. R16-2 RLN::flush reaches sled::Db::flush through the resolved call graph (close_db_connection -> "
                    "SledDB::close -> flush), and set_metadata writes the store before the in-memory copy. R16-3 PmtreeConfig::from_str: "
                    "each JSON key literal reaches the sled::Config builder method of the same name (path, temporary, cache_capacity, "
-                   "flush_every_ms, mode, use_compression), the mode strings map to the same-named variants, and Default sets all six. "
+                   "flush_every_ms, mode, use_compression), the mode strings map to the same-named variants, and Default sets all six; the guard that refuses an existing location for a temporary (delete-on-drop) database tests the effective value handed to the builder, not the raw option. "
                    "R16-4 PmTree::new = load(config), and new(depth, same config) only when load reported DatabaseError(CannotLoadDatabase) - every other "
                    "load failure is returned; SledDB::load returns Ok only for a recovered location and that error value only for an unrecovered one; "
                    "no open failure is that value; load and new open through the same retrying routine.",
@@ -290,6 +290,24 @@ def check_config(ctx, fb):
         if bad:
             break
     ctx.check(bad is None, "R16-3", "from_str key table", "each of %s reaches the same-named sled::Config method on %d success paths" % (KEYS, len(oks)), bad or "", loc(it))
+    # one belief about a missing key: every condition that looks at the "temporary" option (the guard that refuses to open an existing
+    # location as temporary, i.e. delete-on-drop) must test the very value handed to sled::Config::temporary; a guard on the raw option
+    # treats a missing key as `false` while the builder treats it as the default `true`, and the existing tree is removed on drop
+    incons = None
+    nguard = 0
+    for p, rv in oks:
+        chain, base = peel(rv[4][0][4][0])
+        eff = dict(chain).get("temporary")
+        for at, v in p.conds():
+            if at[0] not in ("b", "ok", "v") or "temporary" not in json_keys(at[1]):
+                continue
+            nguard += 1
+            if not (at[0] == "b" and at[1] == eff):
+                incons = "a success path is conditioned on %s while sled::Config::temporary receives %s" % (sh(at[1], 120), sh(eff, 120))
+    errs = [p for p in paths if p.kind == "return" and known_ok(eng.value_of(p.store, p.ret)) is False
+            and any(at[0] == "b" and at[1][0] == "call" and at[1][1].endswith("::exists") and v is True for at, v in p.conds())]
+    ctx.check(incons is None and nguard >= 1 and len(errs) >= 1, "R16-3", "from_str temporary guard", "the existing-location guard tests the effective `temporary` value (the one the builder receives)",
+              incons or "no guard on the temporary option found (%d conditions, %d rejecting paths): an existing tree can be opened delete-on-drop" % (nguard, len(errs)), loc(it))
     want = {"HighThroughput": {"HighThroughput"}, "LowSpace": {"LowSpace"}, None: {"HighThroughput"}}
     ctx.check(modes == want, "R16-3", "from_str mode table", "\"HighThroughput\"/\"LowSpace\" map to the same-named variants, default HighThroughput",
               "mode strings map as %s, specification %s" % (modes, want), loc(it))
